@@ -71,6 +71,10 @@ type RoundLifecycle struct {
 	FinalizedAppStateHash string
 	FinalizedBlockHash    string
 
+	// Set when a prevote quorum for one block was seen before our own prevote was chosen:
+	// the precommit decision is then requested as soon as the prevote has been recorded.
+	PrecommitDueAfterPrevote bool
+
 	CommitWaitElapsed bool
 
 	AssertEnv gassert.Env
@@ -103,6 +107,7 @@ func (rlc *RoundLifecycle) Reset(ctx context.Context, h uint64, r uint32) {
 
 	rlc.HeightCommitted = make(chan struct{})
 	rlc.CommitWaitElapsed = false
+	rlc.PrecommitDueAfterPrevote = false
 
 	// The hashes may have been cleared already in some circumstances,
 	// but a second clear won't hurt.
